@@ -244,9 +244,17 @@ func (mc *Chain) processVerifyBlock(ctx context.Context, b *block.Block) error {
 		}
 	}
 
+	// the tickets that arrive attached to a proposal have been verified by nobody: they are merged
+	// with the round's tickets and counted towards notarization below
+	attached := b.GetVerificationTickets()
+	if err := mc.verifyAttachedTickets(ctx, b.Hash, b.Round, attached); err != nil {
+		logging.Logger.Error("verify block - tickets attached to the block are not valid",
+			zap.Int64("round", b.Round), zap.String("block", b.Hash), zap.Error(err))
+		return err
+	}
+
 	vts := mr.GetVerificationTickets(b.Hash)
 
-	// TODO: mc.MergeVerificationTickets does not verify block's own tickets, might be a problem!
 	mc.MergeVerificationTickets(b, vts)
 	if !b.IsBlockNotarized() {
 		mc.AddToRoundVerification(ctx, mr, b)
@@ -272,6 +280,27 @@ func (mc *Chain) processVerifyBlock(ctx context.Context, b *block.Block) error {
 
 	mc.checkBlockNotarization(ctx, mr, b, true)
 	return nil
+}
+
+// verifyAttachedTickets checks the verification tickets a received block carries: every one of them
+// must be a valid signature of a distinct miner of the given round on the given block hash.
+func (mc *Chain) verifyAttachedTickets(ctx context.Context, hash string, round int64,
+	bvts []*block.VerificationTicket) error {
+	if len(bvts) == 0 {
+		return nil
+	}
+	verifiers := make(map[string]struct{}, len(bvts))
+	for _, vt := range bvts {
+		if vt == nil {
+			return common.NewError("null_ticket", "Verification ticket is null")
+		}
+		if _, ok := verifiers[vt.VerifierID]; ok {
+			return common.NewError("duplicate_ticket_signature",
+				"Found duplicate signatures in the tickets attached to the block")
+		}
+		verifiers[vt.VerifierID] = struct{}{}
+	}
+	return mc.VerifyTickets(ctx, hash, bvts, round)
 }
 
 // handleVerificationTicketMessage - handles the verification ticket message.
